@@ -33,6 +33,10 @@ class Scratch(object):
 
     def __init__(self, tag):
         os.makedirs(build.WORK, exist_ok=True)
+        for x in os.listdir(build.WORK):        # directories left behind by a killed earlier run
+            pre, _, pid = x.rpartition('-')
+            if pre == tag and pid.isdigit() and not os.path.exists('/proc/%s' % pid):
+                shutil.rmtree(os.path.join(build.WORK, x), ignore_errors=True)
         self.d = os.path.join(build.WORK, '%s-%d' % (tag, os.getpid()))
         shutil.rmtree(self.d, ignore_errors=True)
         os.makedirs(self.d)
